@@ -73,3 +73,4 @@ CFG["assumptions"].append("what a call returned is the caller's to keep and modi
                           "cron.ParseStandard / Parser.Parse documents that its result is shared or read-only, and SpecSchedule's fields are exported")
 CFG["assumptions"].append("failing pipelines: only failures the caller provokes through documented inputs (options, callbacks, streams); which of the borderline key names "
                           "fit in the header is not asserted, only that the outcome equals the worker's solo outcome")
+CFG["rule"] += ' Cron workers also log through a sink that keeps format and arguments and renders them after the repetition; month and day names come in spellings of their own per worker, and families of such specs run cold.'
